@@ -452,3 +452,53 @@ def edge_owned_frames(chk, F, rid="R-EDGEOWN"):
                "left a scope pushed (a fault inside a quantifier body), a later select label of the same edge declares "
                "its variables in that stray scope and the edge's select stays empty" %
                ([a for a in args if "frame" in a or "top" in a] or args), "%s:%s" % (fn["file"], c.get("l")))
+
+
+def part_context(chk, F, G, rid="R-PARTCTX"):
+    """parse_XTA(text, builder, newxta, part, path) is a public entry point for every xta_part_t.  The callbacks a part's
+    start production can invoke run with whatever `current` pointers the builder happens to have: when nothing in the
+    part's own derivations sets `currentTemplate` (no proc_begin), a callback that follows it unconditionally crashes
+    on a builder that is not inside a template - the XML reader always is, a direct caller need not be."""
+    from ..inline import sites_with_conditions, strip
+    from . import driver as drv, routing
+    chk.rule(rid, "for every part whose start productions cannot call proc_begin: no DocumentBuilder callback reachable "
+                  "from them follows currentTemplate / currentInstanceLine on its unconditional path")
+    parts = drv.start_tokens(F)
+    bad = {}
+    n = 0
+    for part, toks in sorted(parts.items()):
+        names = set()
+        for tok in toks:
+            for r in G.rules:
+                if r.lhs == "Uppaal" and r.rhs and r.rhs[0] == tok:
+                    names |= set(routing.reachable_calls(G, r))
+        if "proc_begin" in names:
+            continue
+        for nm in sorted(names):
+            for fn in F.fns("UTAP::DocumentBuilder::" + nm):
+                if fn.get("body") is None:
+                    continue
+                x = F.normal(fn)
+                for m in ("currentTemplate", "currentInstanceLine"):
+                    def site(nd, m=m):
+                        b = None
+                        if nd.get("k") == "member" and nd.get("arrow"):
+                            b = strip(nd.get("base") or {})
+                        elif nd.get("k") == "call" and nd.get("arrow") and nd.get("recv") is not None:
+                            b = strip(nd["recv"])
+                        return isinstance(b, dict) and b.get("k") == "member" and b.get("name") == m
+                    for s_, conds in sites_with_conditions(x["body"], site):
+                        n += 1
+                        # armed for dereferences on the callback's unconditional path only: a dereference under
+                        # other conditions (both instance lines resolved ...) may be unreachable without a template
+                        if not conds:
+                            bad.setdefault((nm, len(fn["params"]), m), set()).add(part)
+    for (nm, np_, m), ps in sorted(bad.items()):
+        chk.ob(rid, "%s/%d|%s" % (nm, np_, m), False,
+               "DocumentBuilder::%s follows %s without a test and is reachable from the start production(s) of %s, none "
+               "of which sets it: parse_XTA(text, builder, newxta, %s, path) on a builder that is not inside a template "
+               "dereferences a null pointer" % (nm, m, ", ".join(sorted(ps)), sorted(ps)[0]), "src/DocumentBuilder.cpp")
+    if n < 3:
+        raise AnalysisBroken("only %d current-pointer dereferences reachable from part parses" % n)
+    if not bad:
+        chk.ob(rid, "all-parts", True, "", "src/DocumentBuilder.cpp")
